@@ -64,6 +64,31 @@ func c05Row(family string, n int) func(i int) model.Row {
 		return func(i int) model.Row {
 			return model.Row{"all": "1", "par": strconv.Itoa(i % 2), "half": strconv.Itoa(i * 2 / n), "id": strconv.Itoa(i)}
 		}
+	case "odd": // an empty column name next to ordinary columns; values and a column name that are not valid UTF-8 and differ
+		// in one invalid byte only (a schema stored through a text encoding merges or mangles them)
+		return func(i int) model.Row {
+			r := model.Row{"id": strconv.Itoa(i), "bin": []string{"caf\xe9", "caf\xe8", "ok", "caf\ufffd"}[i%4]}
+			if i%3 == 0 {
+				r[""] = "e" + strconv.Itoa(i%2)
+			}
+			if i%5 == 0 {
+				r["caf\xe9"] = "x\xff"
+			}
+			if i%7 == 0 {
+				r["caf\xe8"] = "x\xfe"
+			}
+			return r
+		}
+	case "k4096": // values that hold for EXACTLY 4096 and 8192 rows (and one for 5 rows): n = 4096 + 8192 + 5
+		return func(i int) model.Row {
+			x := "c"
+			if i < 4096 {
+				x = "a"
+			} else if i < 4096+8192 {
+				x = "b"
+			}
+			return model.Row{"x": x, "y": strconv.Itoa(i % 3), "id": strconv.Itoa(i)}
+		}
 	case "exact": // exactly n distinct (column,value) pairs in one column: totals that are exact multiples of the batch size
 		return func(i int) model.Row { return model.Row{"v": strconv.Itoa(i)} }
 	case "exact2": // 600 + 400 = exactly 1000 pairs spread over two columns (n must be 1200)
@@ -174,17 +199,49 @@ func c05CheckDataset(ctx *rt.Ctx, family string, rows []model.Row, n int, full b
 			d.Add(i, k, v)
 		}
 	}
-	for _, w := range allWriters {
+	full0 := d
+	var firstRejected []int
+	for wi, w := range allWriters {
 		c := c05Case{Family: family, Rows: rows, N: n, Writer: int(w)}
+		// a writer may refuse a row (AddRow returns an error): then the row counts as not added - nothing of it may show
+		// up, ids keep counting over the accepted calls, and all writers must refuse the same rows
+		ix.TolerateRejects = family == "odd"
 		path, ids, err := ix.BuildFunc(ctx.Scratch, n, rowf, w)
+		ix.TolerateRejects = false
 		if err != nil {
 			return rt.NewViolation("C05", "roundtrip", c.sig()+" build", c, "writer failed: %v", err)
 		}
-		for i, id := range ids {
-			if id != uint32(i) {
-				removeFile(path)
-				return rt.NewViolation("C05", "roundtrip", c.sig()+" ids", c, "AddRow call #%d returned id %d", i, id)
+		rej := append([]int{}, ix.Rejected...)
+		if wi == 0 {
+			firstRejected = rej
+		} else if fmt.Sprint(rej) != fmt.Sprint(firstRejected) {
+			removeFile(path)
+			return rt.NewViolation("C05", "roundtrip", c.sig()+" rejects", c, "writer %s refuses rows %v, writer %s refuses rows %v", allWriters[0], firstRejected, w, rej)
+		}
+		d = full0
+		if len(rej) > 0 {
+			d = model.NewData(n - len(rej))
+			k := 0
+			for i := 0; i < n; i++ {
+				if ids[i] == ix.RejectedID {
+					continue
+				}
+				for col, v := range rowf(i) {
+					d.Add(k, col, v)
+				}
+				k++
 			}
+		}
+		k := 0
+		for i, id := range ids {
+			if id == ix.RejectedID {
+				continue
+			}
+			if id != uint32(k) {
+				removeFile(path)
+				return rt.NewViolation("C05", "roundtrip", c.sig()+" ids", c, "AddRow call #%d (accepted call #%d) returned id %d", i, k, id)
+			}
+			k++
 		}
 		for _, pre := range []bool{false, true} {
 			c.Preload = pre
@@ -495,6 +552,8 @@ func c05Run(ctx *rt.Ctx) []*rt.Violation {
 	}
 	add("exact2", c05Args{Family: "exact2", N: 1200}, 1)
 	add("bigval", c05Args{Family: "bigval", N: 9000}, 1)
+	add("k4096", c05Args{Family: "k4096", N: 4096 + 8192 + 5}, 1)
+	add("odd", c05Args{Family: "odd", N: 43, Full: true}, 1)
 	add("multi", c05Args{Family: "multi"}, 1)
 	depth := 5
 	if ctx.Thorough() {
